@@ -114,6 +114,41 @@ Proof.
   pose proof (Hb (path_end (path_start p) p)). pose proof (Hb (path_start p)). lia.
 Qed.
 
+(* when span_okb accepts the graph, EVERY path of it (not only the reported one) weighs at most the span of the node time stamps *)
+Definition ts_of_node (N : list cpnode) (v : Z) : Z := match find_node N v with Some n => c_ts n | None => 0 end.
+
+Lemma find_node_in N v n : find_node N v = Some n -> In (c_ts n) (map c_ts N).
+Proof. unfold find_node. intro H. apply find_some in H. destruct H as [H _]. apply in_map. exact H. Qed.
+
+Lemma minZ_le_in d l x : In x l -> minZ d l <= x.
+Proof.
+  revert d. induction l as [|y l IH]; intros d Hx; [destruct Hx|]. simpl. destruct Hx as [Hx|Hx]; [subst; lia|]. specialize (IH y Hx). lia.
+Qed.
+
+Lemma chain_end_dst : forall p u, p <> [] -> exists e, In e p /\ path_end u p = e_dst e.
+Proof.
+  induction p as [|e r IH]; intros u Hne; [congruence|]. cbn [path_end]. destruct r as [|e' r'].
+  - exists e. split; [left; reflexivity | reflexivity].
+  - destruct (IH (e_dst e) ltac:(discriminate)) as [x [Hx Hd]]. exists x. split; [right; exact Hx | exact Hd].
+Qed.
+
+Theorem makespan_guaranteed N W p : span_okb N W = true -> is_path W p ->
+  path_weight p <= maxZ 0 (map c_ts N) - minZ 0 (map c_ts N).
+Proof.
+  intros Hs Hp. unfold span_okb in Hs. rewrite forallb_forall in Hs.
+  assert (Hw : forall e, In e W -> e_w e <= ts_of_node N (e_dst e) - ts_of_node N (e_src e)).
+  { intros e He. specialize (Hs e He). unfold ts_of_node. destruct (find_node N (e_src e)); [|discriminate]. destruct (find_node N (e_dst e)); [|discriminate]. lia. }
+  pose proof (path_le_span W (ts_of_node N) p Hw Hp) as Hb.
+  destruct p as [|e0 r0]; [destruct Hp|]. destruct Hp as [Hin Hch]. cbn [path_start] in Hb.
+  assert (H0 : In e0 W) by (apply Hin; left; reflexivity).
+  destruct (chain_end_dst (e0 :: r0) (e_src e0) ltac:(discriminate)) as [x [Hx Hd]]. rewrite Hd in Hb.
+  assert (Hx' : In x W) by (apply Hin; exact Hx).
+  pose proof (Hs e0 H0) as A. pose proof (Hs x Hx') as B. unfold ts_of_node in Hb.
+  destruct (find_node N (e_src e0)) as [a|] eqn:Ea; [|discriminate]. destruct (find_node N (e_dst e0)); [|discriminate].
+  destruct (find_node N (e_src x)); [|discriminate]. destruct (find_node N (e_dst x)) as [b|] eqn:Eb; [|discriminate].
+  pose proof (maxZ_ge_in 0 _ _ (find_node_in N _ b Eb)). pose proof (minZ_le_in 0 _ _ (find_node_in N _ a Ea)). lia.
+Qed.
+
 (* ---------- C10: what an accepted breakdown row guarantees ---------- *)
 Theorem brow_ok_sound clipped N r : brow_ok clipped N r = true ->
   exists nu nv, find_node N (r_u r) = Some nu /\ find_node N (r_v r) = Some nv /\
